@@ -632,7 +632,7 @@ pub fn gen_module(cs: &mut Cs, mode: ModMode, max_insts: usize) -> GenModule {
         0 => cs.u32(),
         _ => gen.next_id.max(gen.bound),
     };
-    let mut gen_schema = (0x000f_0000, 0);
+    let mut gen_schema = (ambient_generator(), 0);
     if gen.edge_ids {
         // header extremes: bound 0 / 1 / u32::MAX, arbitrary generator and schema words
         match cs.below(6) {
@@ -904,6 +904,33 @@ fn raw_str_words(b: &[u8]) -> Vec<u32> {
     v.chunks(4).map(|c| u32::from_le_bytes([c[0], c[1], c[2], c[3]])).collect()
 }
 
+/// OpCapability / OpExtension / OpExtInstImport instructions for the sub-lists of the vocabulary that
+/// `code` selects (see `vocab::coded_subset`); import ids are 4000 + index
+pub fn vocabulary_prefix(code: usize) -> Vec<u32> {
+    let mut w = vec![];
+    if let Some(c) = golden().enums.get("Capability") {
+        let all: Vec<u32> = c.values.iter().map(|v| v.value).collect();
+        for v in crate::vocab::coded_subset(&all, code % crate::vocab::codes_for(all.len())) {
+            w.extend([0x0002_0011, v]);
+        }
+    }
+    let exts = crate::vocab::extensions();
+    for e in crate::vocab::coded_subset(exts, code % crate::vocab::codes_for(exts.len())) {
+        let mut v = vec![10u32];
+        v.extend(str_words(&e));
+        v[0] |= (v.len() as u32) << 16;
+        w.extend(v);
+    }
+    let sets: Vec<(usize, &str)> = crate::vocab::EXT_SETS.iter().copied().enumerate().collect();
+    for (i, e) in crate::vocab::coded_subset(&sets, code % crate::vocab::codes_for(sets.len())) {
+        let mut v = vec![11u32, 4000 + i as u32];
+        v.extend(str_words(e));
+        v[0] |= (v.len() as u32) << 16;
+        w.extend(v);
+    }
+    w
+}
+
 /// Structural faults and structural variations on a generated module (the oracle never sees the
 /// description): a word that is special elsewhere in the format at an instruction boundary, modules
 /// stored back to back, a text split by byte count over two consecutive string-bearing instructions
@@ -919,7 +946,18 @@ pub fn mutate2(cs: &mut Cs, m: &GenModule) -> (Vec<u8>, Vec<&'static str>) {
     for _ in 0..nmut {
         // boundaries refer to the unmodified module: after a length-changing edit only the tail edits remain sound enough
         let b = bounds[cs.below(bounds.len())].min(w.len());
-        match cs.below(9) {
+        match cs.below(11) {
+            9 | 10 => {
+                // the module declares (a coded half of) everything tools know by name: every
+                // capability, every extension name, every extended instruction set
+                if w.len() == words.len() && w.len() >= 5 {
+                    let pre = vocabulary_prefix(cs.below(64));
+                    let tail = w.split_off(5);
+                    w.extend(pre);
+                    w.extend(tail);
+                    kinds.push("vocabulary-prefix");
+                }
+            }
             0 => {
                 w.insert(b, SPECIAL_WORDS[cs.below(SPECIAL_WORDS.len())]);
                 kinds.push("special-word-at-boundary");
@@ -993,7 +1031,7 @@ pub fn mutate2(cs: &mut Cs, m: &GenModule) -> (Vec<u8>, Vec<&'static str>) {
                 let ids: Vec<u32> = m.plans.iter().filter_map(|p| p.rid).collect();
                 if !ids.is_empty() {
                     let from = ids[cs.below(ids.len())];
-                    let to = [65_535u32, 65_536, 65_537, 131_071, 131_072, 65_536 + from, 0x0002_0000 + from][cs.below(7)];
+                    let to = [65_535u32, 65_536, 65_537, 131_071, 131_072, 65_536 + from, 0x0002_0000 + from, 999_999, 1_000_000, 1_000_001, 1_000_000 + from, 100_000, 10_000_000, 1 << 20, 1 << 24][cs.below(15)];
                     for x in w.iter_mut().skip(5) {
                         if *x == from {
                             *x = to;
